@@ -360,7 +360,18 @@ def c13(ck):
         ck.broken(b)
         _verdict = {}
 
+    ERRP = b"error: ".hex()
+
     def oracle_fast(case, io):
+        # the library's own `error: ...` reports (unknown command, parse errors - also of a processor that rejects a command after having
+        # written output) start at column 0 of a fresh line: directly after a CR LF. (No generated text contains "error: ".)
+        for k_, st_ in enumerate(parse_steps(io) or []):
+            b_ = sinkb(st_["sink"])
+            i_ = b_.find(ERRP)
+            while i_ >= 0:
+                if i_ % 2 == 0 and not b_[:i_].endswith("0d0a"):
+                    return "step %d: the library's error report does not start on a fresh line: ...%s" % (k_, b_[max(0, i_ - 24):i_ + 40])
+                i_ = b_.find(ERRP, i_ + 2)
         v = _verdict.get(case)
         if v is None or v != "ok":
             return oracle_view(case, io)
